@@ -88,6 +88,55 @@ func scC14Writers(w *World, a Args, rng *rand.Rand) error {
 	done := make(chan struct{})
 	go func() { wg.Wait(); close(done) }()
 	waitCh(done, patience(6*time.Second))
+	if k := a.Int("burst", 0); k > 0 {
+		// k subscriptions under ONE context are cancelled at the same instant (k watcher goroutines write their cancel frames
+		// at once) while the main loop is sending large requests
+		ctx, cancel := context.WithCancel(context.Background())
+		var bw sync.WaitGroup
+		ds := []chan struct{}{}
+		for i := 0; i < k; i++ {
+			mu.Lock()
+			t := next()
+			mu.Unlock()
+			w.Plan(t, &Plan{NoClose: true, WaitCtx: true})
+			d := make(chan struct{})
+			ds = append(ds, d)
+			bw.Add(1)
+			go func(t int, d chan struct{}) {
+				defer bw.Done()
+				ch, out := A.Subscribe(ctx, t, 2, "")
+				if out == "ok" && ch != nil {
+					w.Consume(t, ch, nil, d)
+				} else {
+					close(d)
+				}
+			}(t, d)
+		}
+		waitWG := func(d time.Duration) {
+			c := make(chan struct{})
+			go func() { bw.Wait(); close(c) }()
+			waitCh(c, d)
+		}
+		waitWG(patience(3 * time.Second))
+		time.Sleep(3 * time.Millisecond)
+		for j := 0; j < 3; j++ {
+			mu.Lock()
+			t := next()
+			mu.Unlock()
+			w.Plan(t, &Plan{})
+			bw.Add(1)
+			go func(t int) { defer bw.Done(); A.CallBigReq(context.Background(), t, 200000+rng.Intn(100000)) }(t)
+		}
+		time.Sleep(time.Duration(rng.Intn(400)) * time.Microsecond)
+		for i := 0; i < k; i++ {
+			w.Rec.Emit("CallerCancel", "call", tok-2-i)
+		}
+		cancel()
+		waitWG(patience(3 * time.Second))
+		for _, d := range ds {
+			waitCh(d, patience(2*time.Second))
+		}
+	}
 	for t := 1; t <= tok; t++ {
 		w.Release(t)
 	}
